@@ -21,6 +21,8 @@ Tok(t, name, atts, s, src) == [t |-> t, name |-> name, atts |-> atts, s |-> s, s
 StartT(name, atts) == Tok("start", name, atts, "", "tpl")
 EndT(name)         == Tok("end", name, <<>>, "", "tpl")
 TextT(s, src)      == Tok("text", "", <<>>, s, src)
+RTextT(s)          == Tok("rtext", "", <<>>, s, "tpl")      \* content of a raw-text element: no references, no markup
+RawTextTags == {"script", "style"}
 RawT(s, src)       == Tok("raw", "", <<>>, s, src)
 
 R(toks, g) == [t |-> toks, g |-> g]
@@ -120,10 +122,10 @@ XEl(nd, cx0) ==
        ELSE XTal(nd, cx)
 
 XNode(nd, cx) ==
-    IF nd.k = "text" THEN R(<<TextT(nd.text, "tpl")>>, cx.g)
+    IF nd.k = "text" THEN R(<<IF cx.rt THEN RTextT(nd.text) ELSE TextT(nd.text, "tpl")>>, cx.g)
     ELSE IF nd.k = "raw" THEN R(<<RawT(nd.text, "tpl")>>, cx.g)
     ELSE IF Len(nd.tal) > 0 THEN XEl(nd, cx)
-    ELSE LET k == XKids(nd.kids, 1, cx) IN
+    ELSE LET k == XKids(nd.kids, 1, [cx EXCEPT !.rt = nd.tag \in RawTextTags]) IN
          R(<<StartT(nd.tag, nd.atts)>> \o k.t \o (IF nd.tag \in VoidTags THEN <<>> ELSE <<EndT(nd.tag)>>), k.g)
 
 \* the globals the caller hands over: the context entries plus `macros` = the template's macro table
@@ -144,13 +146,14 @@ GlobalDefines(nodes, i) ==
 \* expanding a template (a sequence of top-level nodes) with globals g0
 Expand(nodes, g0, py) ==
     XKids(nodes, 1, [g |-> g0, l |-> EmptyF, rm |-> EmptyF, at |-> <<>>, py |-> py,
-                     mac |-> AsTable(MacroList(nodes, 1)), slots |-> EmptyF])
+                     mac |-> AsTable(MacroList(nodes, 1)), slots |-> EmptyF, rt |-> FALSE])
 
 \* ---- the document and its skeleton ----------------------------------------------------------------------
 TokText(k) == CASE k.t = "start" -> TagText(k.name, k.atts, FALSE)
                 [] k.t = "end"   -> "</" \o k.name \o ">"
                 [] k.t = "text"  -> EscText(k.s)
                 [] k.t = "raw"   -> k.s
+                [] k.t = "rtext" -> k.s
 RECURSIVE DocFrom(_, _)
 DocFrom(toks, i) == IF i > Len(toks) THEN "" ELSE TokText(toks[i]) \o DocFrom(toks, i + 1)
 Doc(toks) == DocFrom(toks, 1)
@@ -165,6 +168,13 @@ TextFrom(toks, i) ==      \* character data: text tokens, and values written raw
     ELSE (IF toks[i].t = "text" \/ (toks[i].t = "raw" /\ toks[i].src = "data") THEN toks[i].s ELSE "") \o TextFrom(toks, i + 1)
 AllText(toks) == TextFrom(toks, 1)
 Markup == {"<", ">", "&", "\"", "'"}
+\* the template has a raw-text element (script, style) whose content contains a character html.escape rewrites
+RECURSIVE HasRawMarkup(_, _)
+HasRawMarkup(nodes, i) ==
+    IF i > Len(nodes) THEN FALSE
+    ELSE LET nd == nodes[i] IN
+         \/ (nd.k = "el" /\ nd.tag \in RawTextTags /\ \E j \in DOMAIN nd.kids : nd.kids[j].k = "text" /\ TX!Chars(nd.kids[j].text) \cap {"<", ">", "&"} # {})
+         \/ (nd.k = "el" /\ HasRawMarkup(nd.kids, 1)) \/ HasRawMarkup(nodes, i + 1)
 \* the template asked for structure with a value that carries markup: skeletons are not comparable
 AsksStructure(toks) == \E i \in DOMAIN toks : toks[i].t = "raw" /\ toks[i].src = "data" /\ TX!Chars(toks[i].s) \cap Markup # {}
 =============================================================================
